@@ -779,7 +779,9 @@ def part_from_matchfile(
             if measure_name > prev_name + 1:
                 # no note starts in the measure(s) in between: the previous measure keeps
                 # its own length (an anacrusis ends at beat 0), add_measures fills the gap
-                if prev_start_quarters < 0:
+                # (bar positions come from 4-decimal beat values: the first complete
+                # measure can start a hair before 0)
+                if prev_start_quarters < -0.5 / divs:
                     natural_end = int(round(divs * (0 - offset)))
                 else:
                     natural_end = prev_start_divs + full_measure_divs(prev_start_quarters)
